@@ -226,7 +226,13 @@ def gen_num(g: G, sch: Sch, t: str, depth: int, must_col=False):
         return None if a is None else ["call", "abs", [a]]
     if k == "div":
         a = gen_num(g, sch, g.pick(["int", "float"]), depth - 1, must_col=True)
-        return None if a is None else ["call", "/", [a, ["lit", g.pick(DIVISORS)]]]
+        if a is None:
+            return None
+        if a[0] == "call" and g.boolean(0.5) and sch.cols and "float_divide" not in g.closed:
+            # the explicit float division operator with a compound numerator (dialects format it on their own)
+            fa = a if S.expr_type(a, sch)[0] == "float" else ["call", "*", [a, ["lit", 1.0]]]
+            return ["call", "%/%", [fa, ["lit", g.pick(DIVISORS)]]]
+        return ["call", "/", [a, ["lit", g.pick(DIVISORS)]]]
     if k == "floorceil":
         a = gen_num(g, sch, "float", depth - 1, must_col=True)
         return None if a is None else ["call", g.pick(["floor", "ceil"]), [a]]
@@ -1078,6 +1084,25 @@ def draw_program(draw, cfg=None):
     lo_steps = cfg.get("min_steps", 1)
     nsteps = g.pick([n for n in (1, 2, 2, 3, 3, 4, 4, 5, 5, 6, 7, 8) if lo_steps <= n <= max_nodes] or [lo_steps])
     shape = cfg.get("shape")
+    if cfg.get("concat_perm_prob") and g.boolean(cfg["concat_perm_prob"]):
+        # one sub-pipeline P used twice as a concat_rows member, once asked for its columns in P's own order and once
+        # in a permuted order (UNION ALL is positional): concat(concat(P, S), concat(S, P)) with S = P.select_columns(perm)
+        p = b.grow(b.heads[0], g.pick([1, 1, 2]), weights={"project": 4, "order_rows": 3, "extend": 3, "select_rows": 2, "window": 1}, wander=0)
+        names = b.schemas[p].names()
+        if p != b.heads[0] and len(names) >= 2:
+            perm = list(g.draw(st.permutations(names)))
+            if perm == names:
+                perm = names[1:] + names[:1]
+            s_node = b.add({"op": "select_columns", "src": p, "cols": perm})
+            if s_node is not None:
+                first = b.add({"op": "concat_rows", "a": p, "b": s_node, "id_column": None, "a_name": "a", "b_name": "b"})
+                second = b.add({"op": "concat_rows", "a": s_node, "b": p, "id_column": None, "a_name": "a", "b_name": "b"})
+                if first is not None and second is not None:
+                    idc = [n for n in S.POOLS["str"] if n not in names]
+                    root = b.add({"op": "concat_rows", "a": first, "b": second, "id_column": g.pick(idc) if idc and g.boolean() else None, "a_name": "x1", "b_name": "x2"})
+                    if root is not None:
+                        cur = b.grow(root, g.pick([0, 0, 1]), weights={"extend": 4, "select_rows": 2}, wander=0)
+                        return b.finish(cur)
     if shape == "diamond" and g.boolean(cfg.get("shape_prob", 0.8)):
         # prefix P, two consumers A and B of P, combined by join/concat, then a chain of extends
         row_preserving = {"extend": 5, "window": 2, "ordered_window": 2, "select_rows": 2, "rename_columns": 1}
